@@ -202,7 +202,8 @@ class Check:
     def run(self, instances):
         only = os.environ.get('VERIF_ONLY')
         if only:
-            instances = [i for i in instances if only in i.name]
+            import re
+            instances = [i for i in instances if only in i.name or re.search(only, i.name)]
         s = run_instances(instances, procs=int(os.environ.get('VERIF_PROCS', '16')))
         self.summaries.extend(s)
         self.instances = getattr(self, 'instances', []) + list(instances)
